@@ -356,6 +356,8 @@ def run(ctx):
     D.loops_visit_all(ctx, "R-C02.15")
 
     # ---- borrowed obligations (mechanisms owned by other properties that this property's verdict also rests on)
+    # an acknowledged value comes back only if what is journaled under a compression tag is that codec's output
+    ctx.borrow("C15", ["R-C15.14"], "R-C02.18")
     # a write journaled while an ingestion registers its tables gets a seqno below them and is skipped by the next replay: the ingestion holds the journal lock across finish()
     ctx.borrow("C14", ["R-C14.2"], "R-C02.16")
     # seqno draw, append, apply and publish of a write are one critical section under the journal lock (a memtable sealed in the middle of a batch makes replay skip its rest)
